@@ -30,7 +30,7 @@ from .Kernel.FileHandlers.Writer.WriteT4Geometry import (convertMCNPGeometry,
 from .Kernel.FileHandlers.Writer.WriteT4Composition import writeT4Composition
 from .Kernel.FileHandlers.Writer.WriteT4GeomComp import writeT4GeomComp
 from .Kernel.FileHandlers.Writer.WriteT4BoundCond import writeT4BoundCond
-from .Kernel.Volume.Lattice import parse_ranges
+from .Kernel.Volume.Lattice import parse_ranges, INTEGER_RE
 
 
 def parse_lattice(lattice_list):
@@ -90,11 +90,10 @@ in option '100,'
             raise ValueError(f'no ranges specified in option {option!r}')
         if len(rest) > 3:
             raise ValueError(f'too many ranges specified in option {option!r}')
-        try:
-            cell = int(head)
-        except ValueError:
+        if not INTEGER_RE.match(head):
             raise ValueError(f'cell number {head!r} is not an integer in '
-                             f'option {option!r}') from None
+                             f'option {option!r}')
+        cell = int(head)
 
         try:
             lattice_params[cell] = parse_ranges(rest)
